@@ -52,6 +52,9 @@ class Run:
         k = self.knobs()
         k.update(extra)
         self.stats["forks"] += 1
+        if (self.params or {}).get("fresh_epochs"):
+            self.stats["fresh_interpreters"] += 1
+            return Executor(self.world.root, k, fresh=self.env.repo)
         return Executor(self.world.root, k)
 
     def start_epoch(self):
